@@ -40,6 +40,11 @@ def gen_archive(rnd, flavour, newline):
             regular.append(n)
         elif kind == 2:
             e["data"] = rnd.choice(["a.txt", "../x", "dir/sub", "nowhere", "ünï", "with space"]).encode()
+            if rnd.random() < 0.2:
+                # a long target (up to just below PATH_MAX; components of at most 255 bytes): list, extract and the library
+                # must show the same text (seeded C17-6: list cut the target at 1024 bytes)
+                n_ = rnd.choice([1023, 1024, 1025, 1503, 2048, 4000])
+                e["data"] = ("/".join(["t" * 200] * 25))[:n_ - 1].rstrip("/").encode() + b"x"
         elif kind == 3:
             # the stored source of a hard link is relative to the entry's own directory (extract.rs)
             here = [r for r in regular if os.path.dirname(r) == os.path.dirname(n)]
